@@ -26,8 +26,8 @@ that level; the ownership tree itself is the subject of `C08_recovery_root_only`
 nodes get new values (`Fix.dirty`; such a node computes with the fresh symbol `Fix.sym`, and `A` is any
 set containing those nodes and everything downstream of them).
 
-`RCfg.now` is /repo as it is (fixes 0699958 and bc0a763 applied), `RCfg.repaired` adds the proposed
-fixes/C08-inflight-cache.patch, `RCfg.stale` is the tree before bc0a763 (all-of triggers keep what an
+`RCfg.now` = `RCfg.repaired` is /repo as it is; `RCfg.mid` is /repo when this check was first built (fixes
+0699958 and bc0a763 applied, not yet 3c6698c / 60885c9 / C07's repairs), `RCfg.stale` is the tree before bc0a763 (all-of triggers keep what an
 interrupted run had collected), `RCfg.original` the tree as first pinned.
 -/
 namespace PwVerif.C08
@@ -219,26 +219,26 @@ theorem statement_of_sound {rc cfg}
 theorem C08_resume_repaired (cfg : Cfg) : ResumeStatement RCfg.repaired cfg :=
   statement_of_sound (fun _ _ _ _ _ hA hA0 => ⟨⟨Or.inl rfl, Or.inl rfl⟩, Or.inl rfl, hA, hA0⟩)
 
-/-- the code as it is NOW, partial: every cut at which no child is in flight on an executor -/
-theorem C08_resume_now_partial {fx cfg d s rs A} (wf : WF d) (rank : Nat → Nat)
+/-- the code at `RCfg.mid`, partial: every cut at which no child is in flight on an executor -/
+theorem C08_resume_mid_partial {fx cfg d s rs A} (wf : WF d) (rank : Nat → Nat)
     (hrank : ∀ i j, j ∈ d.deps i → rank j < rank i) (hA : Affected fx d A)
     (hA0 : (∀ i, fx.dirty i = false) → ∀ i, A i = false) (hc : Cut cfg d s)
-    (hquiet : ∀ i, s.st i ≠ .out) (hr : Resumed RCfg.now fx cfg d s rs) (hex : rs.s.phase = .exited) :
+    (hquiet : ∀ i, s.st i ≠ .out) (hr : Resumed RCfg.mid fx cfg d s rs) (hex : rs.s.phase = .exited) :
     (∀ i, d.member i → rs.s.out i = .app (fx.sym i) (headArgs d rs.s.out i)) ∧
     (∀ i, s.st i = .done → A i = false → rs.fcalls i = 0) := by
-  have hs : Sound RCfg.now fx d s A := ⟨⟨Or.inr hquiet, Or.inl rfl⟩, Or.inl rfl, hA, hA0⟩
+  have hs : Sound RCfg.mid fx d s A := ⟨⟨Or.inr hquiet, Or.inl rfl⟩, Or.inl rfl, hA, hA0⟩
   exact ⟨fun i hm => (C08_resume_equations wf rank hrank hc hs hr hex i hm).2,
     fun i hi ha => C08_no_recall wf hc hs hr i hi ha rfl⟩
 
-/-- the code as it is NOW: the RECOVERY file (written when the failed run has returned) always
+/-- the code at `RCfg.mid`: the RECOVERY file (written when the failed run has returned) always
 resumes to the same end — by C06 nothing is in flight when the loop has exited -/
-theorem C08_recovery_now {fx cfg d s rs A} (wf : WF d) (rank : Nat → Nat)
+theorem C08_recovery_mid {fx cfg d s rs A} (wf : WF d) (rank : Nat → Nat)
     (hrank : ∀ i j, j ∈ d.deps i → rank j < rank i) (hA : Affected fx d A)
     (hA0 : (∀ i, fx.dirty i = false) → ∀ i, A i = false) (hc : Cut cfg d s) (hend : s.phase = .exited)
-    (hr : Resumed RCfg.now fx cfg d s rs) (hex : rs.s.phase = .exited) :
+    (hr : Resumed RCfg.mid fx cfg d s rs) (hex : rs.s.phase = .exited) :
     (∀ i, d.member i → rs.s.out i = .app (fx.sym i) (headArgs d rs.s.out i)) ∧
     (∀ i, s.st i = .done → A i = false → rs.fcalls i = 0) :=
-  C08_resume_now_partial wf rank hrank hA hA0 hc (C06.C06_nobody_running_exited wf hc hend).2 hr hex
+  C08_resume_mid_partial wf rank hrank hA hA0 hc (C06.C06_nobody_running_exited wf hc hend).2 hr hex
 
 /-- the code BEFORE fix bc0a763 (triggers keep the tokens of the interrupted run), partial: nothing
 in flight and no input changed — then the early firings it allows are harmless -/
@@ -253,6 +253,27 @@ theorem C08_resume_stale_partial {cfg d s rs} (wf : WF d) (rank : Nat → Nat)
   refine ⟨fun i hm => ?_, fun i hi => C08_no_recall wf hc hs hr i hi rfl rfl⟩
   have := (C08_resume_equations wf rank hrank hc hs hr hex i hm).2
   simpa [Fix.sym, Fix.none] using this
+
+/-- the code as it is NOW: the full statement, every cut and every fix -/
+theorem C08_resume_now (cfg : Cfg) : ResumeStatement RCfg.now cfg := C08_resume_repaired cfg
+
+/-- NOW (a restored composite keeps its cache): a child that is itself a composite, had completed
+before the cut and has no new input values anywhere inside or upstream is NOT run again either — so
+nothing inside it is; before fix 60dc3d1 (`keepCompositeCache = false`) every composite child is run
+again (`C08_rest_runs_once`) and only its function-node descendants are spared -/
+theorem C08_no_recall_composite {rc fx cfg d s rs A isComp innerChanged} (wf : WF d) (hc : Cut cfg d s)
+    (hs : Sound rc fx d s A) (hk : rc.keepCompositeCache = true)
+    (hr : ResumedC rc (rerunSet rc isComp innerChanged) fx cfg d s rs)
+    (i : Nat) (hi : s.st i = .done) (ha : A i = false) (hin : innerChanged i = false) : rs.fcalls i = 0 :=
+  C08_no_recall wf hc hs hr i hi ha (by simp [rerunSet, hk, hin])
+
+/-- before 60dc3d1: at exit every composite child has been run again -/
+theorem C08_composite_rerun_before {rc fx cfg d s rs A isComp innerChanged} (wf : WF d) (rank : Nat → Nat)
+    (hrank : ∀ i j, j ∈ d.deps i → rank j < rank i) (hc : Cut cfg d s)
+    (hs : Sound rc fx d s A) (hk : rc.keepCompositeCache = false)
+    (hr : ResumedC rc (rerunSet rc isComp innerChanged) fx cfg d s rs) (hex : rs.s.phase = .exited)
+    (i : Nat) (hm : d.member i) (hcomp : isComp i = true) : rs.fcalls i = 1 :=
+  (C08_rest_runs_once wf rank hrank hc hs hr).2 hex i hm (Or.inr (Or.inr (by simp [rerunSet, hk, hcomp])))
 
 /-! ## (d) checkpoints -/
 
@@ -290,15 +311,15 @@ theorem C08_checkpoint_repaired {cfg d c s rs} (wf : WF d) (rank : Nat → Nat)
   refine ⟨fun i hm => ?_, fun i hi => h2 i hi rfl, h2 c hcd rfl⟩
   simpa [Fix.sym, Fix.none] using h1 i hm
 
-/-- the code as it is NOW, partial: the checkpoint of a child written while no sibling is in flight -/
-theorem C08_checkpoint_now_partial {cfg d c s rs} (wf : WF d) (rank : Nat → Nat)
+/-- the code at `RCfg.mid`, partial: the checkpoint of a child written while no sibling is in flight -/
+theorem C08_checkpoint_mid_partial {cfg d c s rs} (wf : WF d) (rank : Nat → Nat)
     (hrank : ∀ i j, j ∈ d.deps i → rank j < rank i) (hc : CheckpointCut cfg d c s)
     (hquiet : ∀ i, s.st i ≠ .out)
-    (hr : Resumed RCfg.now Fix.none cfg d s rs) (hex : rs.s.phase = .exited) :
+    (hr : Resumed RCfg.mid Fix.none cfg d s rs) (hex : rs.s.phase = .exited) :
     (∀ i, d.member i → rs.s.out i = .app i (headArgs d rs.s.out i)) ∧
     (∀ i, s.st i = .done → rs.fcalls i = 0) ∧ rs.fcalls c = 0 := by
   have hA : Affected Fix.none d (fun _ => false) := ⟨fun i h => by simp [Fix.none] at h, fun _ _ _ h => h⟩
-  obtain ⟨h1, h2⟩ := C08_resume_now_partial wf rank hrank hA (fun _ _ => rfl) hc.cut hquiet hr hex
+  obtain ⟨h1, h2⟩ := C08_resume_mid_partial wf rank hrank hA (fun _ _ => rfl) hc.cut hquiet hr hex
   obtain ⟨_, _, _, _, _, _, hcd⟩ := hc
   refine ⟨fun i hm => ?_, fun i hi => h2 i hi rfl, h2 c hcd rfl⟩
   simpa [Fix.sym, Fix.none] using h1 i hm
@@ -323,10 +344,10 @@ theorem cutFlight : Cut Cfg.repaired wFlight.toDag sFlight := ⟨actsFlight, (Op
 
 /-- resumed run: `0` and `1` both answer from cache, `2` runs, exit -/
 def ractsFlight : List Act := [.start, .start, .deliver, .deliver, .exit]
-theorem someRFlight : (rrunActs Fix.none Cfg.repaired wFlight.toDag (resumeFrom RCfg.now wFlight.toDag sFlight)
+theorem someRFlight : (rrunActs Fix.none Cfg.repaired wFlight.toDag (resumeFrom RCfg.mid wFlight.toDag sFlight)
     ractsFlight).isSome = true := by
   decide +kernel
-def rsFlight : RS := (rrunActs Fix.none Cfg.repaired wFlight.toDag (resumeFrom RCfg.now wFlight.toDag sFlight)
+def rsFlight : RS := (rrunActs Fix.none Cfg.repaired wFlight.toDag (resumeFrom RCfg.mid wFlight.toDag sFlight)
     ractsFlight).get someRFlight
 
 /-- what goes wrong in that run -/
@@ -335,10 +356,10 @@ theorem C08_inflight_cache_detail :
     rsFlight.s.out 2 = .app 2 [.app 1 [], .d] := by
   decide +kernel
 
-/-- NOW: a checkpoint written while a sibling is in flight cannot be resumed: the in-flight node's
+/-- `RCfg.mid`: a checkpoint written while a sibling is in flight cannot be resumed: the in-flight node's
 `_cached_inputs` are in the file, it takes a cache hit, is never executed, its output stays NOT_DATA
 and the node downstream silently runs on its default -/
-theorem C08_inflight_cache_witness : ¬ ResumeStatement RCfg.now Cfg.repaired := by
+theorem C08_inflight_cache_witness : ¬ ResumeStatement RCfg.mid Cfg.repaired := by
   intro hS
   obtain ⟨hwf, hrk⟩ := FinDag.check_sound wFlight (by decide +kernel)
   have := (hS wFlight.toDag sFlight Fix.none (fun _ => false) rsFlight wFlight.rankF hwf hrk
@@ -394,7 +415,7 @@ theorem C08_stale_trigger_witness : ¬ ResumeStatement RCfg.stale Cfg.repaired :
 
 /-- the same cut and the same fix on the code as it is NOW: `2` waits for the re-executed `1` -/
 theorem C08_stale_trigger_now :
-    ((rrunActs fxStale Cfg.repaired wStale.toDag (resumeFrom RCfg.now wStale.toDag sStale)
+    ((rrunActs fxStale Cfg.repaired wStale.toDag (resumeFrom RCfg.mid wStale.toDag sStale)
         [.start, .start, .deliver, .complete 1, .deliver, .exit]).map
       (fun r => (r.s.phase, r.s.execLog, r.s.out 2)))
     = some (.exited, [0, 1, 2], .app 2 [.app 0 [], .app 4 []]) := by
@@ -434,21 +455,21 @@ def wOrder : FinDag :=
   { n := 4, slots := [[], [[0]], [[0]], [[2, 1], [1]]], down := [[2, 1], [3], [3], []],
     starters := [0], onExec := [], fails := [], rank := [0, 1, 1, 2] }
 
-/-- NOW: a checkpoint written from inside a macro that is itself a value-linked child of an outer macro
+/-- `RCfg.mid`: a checkpoint written from inside a macro that is itself a value-linked child of an outer macro
 cannot even be loaded — `Macro.__setstate__` re-sends the linked value to a child that is marked
 `running` (here node `0` of `wFlight`, standing for the macro that was running when the node inside it
 saved the graph), which the input lock refuses; with the links re-forged silently the load goes through -/
 theorem C08_load_refused_witness :
-    loadRefused RCfg.now [0] (snapshot RCfg.now sFlight) = true ∧
+    loadRefused RCfg.mid [0] (snapshot RCfg.mid sFlight) = true ∧
     loadRefused RCfg.repaired [0] (snapshot RCfg.repaired sFlight) = false := by
   decide +kernel
 
-/-- NOW: `Node.load` brings every level below the root back with the fetch priority of multiply
+/-- `RCfg.mid`: `Node.load` brings every level below the root back with the fetch priority of multiply
 connected inputs reversed (C07's subject: one unpickling reverses, the root is restored twice) — the
 resumed run of such a level is a run of a DIFFERENT graph, outside the hypotheses of the theorems above -/
 theorem C08_reload_reverses_witness :
-    (reloadDag RCfg.now false wOrder.toDag).slots 3 = [[1, 2], [1]] ∧
-    (reloadDag RCfg.now true wOrder.toDag).slots 3 = [[2, 1], [1]] ∧
+    (reloadDag RCfg.mid false wOrder.toDag).slots 3 = [[1, 2], [1]] ∧
+    (reloadDag RCfg.mid true wOrder.toDag).slots 3 = [[2, 1], [1]] ∧
     (reloadDag RCfg.repaired false wOrder.toDag).slots 3 = [[2, 1], [1]] := by
   decide +kernel
 
@@ -512,7 +533,7 @@ example : (exS.phase, exS.errs, [0, 1, 2, 3, 4].map exS.st, exS.received 3)
 /-- the hypotheses of the theorems hold at this cut, for the code as it is now, with a changed input at `4` -/
 def exFx : Fix := { dirty := fun i => i == 4, off := 5 }
 def exA : Nat → Bool := fun i => i == 4
-example : Sound RCfg.now exFx exF.toDag exS exA := by
+example : Sound RCfg.mid exFx exF.toDag exS exA := by
   refine ⟨⟨Or.inr (C06.C06_nobody_running_exited exWF exCut (by decide +kernel)).2, Or.inl rfl⟩, Or.inl rfl,
     ⟨fun i h => by simpa [exFx, exA] using h, ?_⟩, fun h => by have := h 4; simp [exFx] at this⟩
   intro i j hj hA
@@ -542,7 +563,7 @@ example : exRS.s.out 3 = .app 3 [.app 2 [.app 0 []], .app 1 [.app 0 []]] := by d
 example : Resumed RCfg.stale Fix.none Cfg.repaired exF.toDag exS exRS := ⟨exRActs, (Option.some_get exRSome).symm⟩
 
 /-- the same on the code as it is now, with the changed input at `4`: `3` waits for both, `4` is executed again -/
-example : ((rrunActs exFx Cfg.repaired exF.toDag (resumeFrom RCfg.now exF.toDag exS)
+example : ((rrunActs exFx Cfg.repaired exF.toDag (resumeFrom RCfg.mid exF.toDag exS)
       [.start, .deliver, .deliver, .deliver, .deliver, .deliver, .exit]).map
       (fun r => (r.s.phase, r.s.execLog, [0, 1, 2, 3, 4].map r.fcalls, r.s.out 4)))
     = some (.exited, [0, 2, 1, 4, 3], [0, 0, 1, 1, 1], .app 9 [.app 0 []]) := by decide +kernel
@@ -580,11 +601,14 @@ end PwVerif.C08
 #print axioms PwVerif.C08.C08_resume_order
 #print axioms PwVerif.C08.C08_resume_progress
 #print axioms PwVerif.C08.C08_resume_repaired
-#print axioms PwVerif.C08.C08_resume_now_partial
-#print axioms PwVerif.C08.C08_recovery_now
+#print axioms PwVerif.C08.C08_resume_now
+#print axioms PwVerif.C08.C08_no_recall_composite
+#print axioms PwVerif.C08.C08_composite_rerun_before
+#print axioms PwVerif.C08.C08_resume_mid_partial
+#print axioms PwVerif.C08.C08_recovery_mid
 #print axioms PwVerif.C08.C08_resume_stale_partial
 #print axioms PwVerif.C08.C08_checkpoint_repaired
-#print axioms PwVerif.C08.C08_checkpoint_now_partial
+#print axioms PwVerif.C08.C08_checkpoint_mid_partial
 #print axioms PwVerif.C08.C08_inflight_cache_witness
 #print axioms PwVerif.C08.C08_inflight_cache_detail
 #print axioms PwVerif.C08.C08_stale_trigger_witness
